@@ -14,7 +14,34 @@
 int main(void){
   URI uri; const CH *errorPos = 0; int rc; long n, i;
   CH *buf;
-#ifdef PREFIX
+#ifdef IP6GEN
+  /* shape-bounded IPv6 literal "//[" ... "]": group layout, zipper position, optional IPv4 tail are skeleton choices (valid AND
+     invalid layouts); plain groups are one symbolic letter a..f; one "wide" group has 1..5 symbolic decimal (IP6_WIDE_HEX: hex, both cases) digits; one IPv4 octet
+     has 1..4 symbolic digits.  Reaches the quad / zipper / octet counters that raw N-character exploration cannot. */
+  { CH tmp[80]; long k = 0; int before = uk_choice(9, "groupsBefore"), zip = uk_choice(2, "zipper"), after = zip ? uk_choice(9 - before, "groupsAfter") : 0;
+    int v4 = uk_choice(2, "ipv4tail"), ng = before + after, g, wide = -1, wlen = 1, oct = -1, olen = 1, noct = 4;
+    tmp[k++] = '/'; tmp[k++] = '/'; tmp[k++] = '[';
+    if (!v4 && ng > 0){ wide = uk_choice(ng, "wideGroup"); wlen = 1 + uk_choice(5, "wideLen"); }
+    if (v4){ oct = uk_choice(4, "bigOctet"); olen = 1 + uk_choice(4, "octetLen"); noct = 3 + uk_choice(3, "octets"); }
+    for (g = 0; g < ng; g++){
+      int len = (g == wide) ? wlen : 1, d;
+      if (g == before && zip){ tmp[k++] = ':'; tmp[k++] = ':'; } else if (g > 0) tmp[k++] = ':';
+      for (d = 0; d < len; d++){ CH c; SYM_TEXT(&c, 1, "h"); 
+#ifdef IP6_WIDE_HEX
+        if (g == wide) uk_assume((CHV(c) >= '0' && CHV(c) <= '9') || (CHV(c) >= 'a' && CHV(c) <= 'f') || (CHV(c) >= 'A' && CHV(c) <= 'F')); else
+#endif
+        if (g == wide) uk_assume(CHV(c) >= '0' && CHV(c) <= '9'); else uk_assume(CHV(c) >= 'a' && CHV(c) <= 'f');   /* plain groups: one lowercase hex letter */ tmp[k++] = c; }
+    }
+    if (zip && before == ng){ tmp[k++] = ':'; tmp[k++] = ':'; }
+    if (v4){
+      if (ng > 0 && !(zip && before == ng)) tmp[k++] = ':';
+      for (g = 0; g < noct; g++){ int len = (g == oct) ? olen : 1, d; if (g > 0) tmp[k++] = '.';
+        for (d = 0; d < len; d++){ CH c; SYM_TEXT(&c, 1, "d"); uk_assume(CHV(c) >= '0' && CHV(c) <= '9'); tmp[k++] = c; } }
+    }
+    tmp[k++] = ']';
+    n = k; buf = uk_buf((size_t)n * sizeof(CH), "text"); for (i = 0; i < n; i++) buf[i] = tmp[i];
+  }
+#elif defined(PREFIX)
   /* concrete prefix followed by symbolic characters (deep IPv6 literals) */
   static const char pre[] = PREFIX; long np = (long)sizeof pre - 1;
   n = np + NMIN + uk_choice(NMAX - NMIN + 1, "len");
